@@ -12,7 +12,7 @@ Definition last_update (la ld : Z) : Z := if ld <? la then la else ld.         (
 Definition is_added (la ld : Z) : bool := (0 <? la) && (ld <? la).             (* IsEntryAdded *)
 Definition is_removed (la ld : Z) : bool := (0 <? ld) && (la <? ld).           (* IsEntryRemoved *)
 
-Record publish := Publish { p_topic : string; p_payload : string; p_qos : Z; p_retain : bool }.
+Record publish := Publish { p_topic : string; p_payload : string; p_qos : Z; p_retain : bool; p_dup : bool }.
 Record smeta := SMeta { m_sid : string; m_cid : string; m_mp : string; m_peer : Z; m_lwt : option publish;
                         m_la : Z; m_ld : Z }.
 Record sub := Sub { s_sid : string; s_pattern : string; s_peer : Z; s_qos : Z; s_la : Z; s_ld : Z }.
@@ -54,10 +54,13 @@ Definition sess_by_client (mp cid : string) := sess_filter (fun m => String.eqb 
 Definition sess_by_peer (p : Z) := sess_filter (fun m => m_peer m =? p).
 Definition sess_get (d : dstate) (id : string) : option smeta :=
   match alookup id (d_sess d) with Some m => if sess_added m then Some m else None | None => None end.
-(* Create: ErrSessionMetadatasExists when present and added; else store (unconditionally) and broadcast *)
+(* Create: ErrSessionMetadatasExists when present and added; an error and no change when the record
+   cannot be encoded for broadcast (its string fields must be well-formed UTF-8; the client
+   identifier is client-chosen bytes); else store (unconditionally) and broadcast *)
 Definition sess_create (d : dstate) (id cid mp : string) (lwt : option publish) (clk : Z) : dstate * option bevent :=
   let fresh := let m := SMeta id cid mp (d_peer d) lwt clk 0 in
-               (with_sess d (aset id m (d_sess d)), Some (BEvent [m] [] [])) in
+               if utf8_ok id && utf8_ok cid && utf8_ok mp then (with_sess d (aset id m (d_sess d)), Some (BEvent [m] [] []))
+               else (d, None) in
   match alookup id (d_sess d) with
   | Some old => if sess_added old then (d, None) else fresh
   | None => fresh
@@ -139,7 +142,7 @@ Definition ret_set (d : dstate) (p : publish) (clk : Z) : dstate * option bevent
   let r := RMsg p (ret_stamp d (p_topic p) clk) 0 in
   (with_ret d (aset (p_topic p) r (d_ret d)), Some (BEvent [] [] [r])).
 Definition ret_delete (d : dstate) (topic : string) (clk : Z) : dstate * option bevent :=
-  let r := RMsg (Publish topic "" 0 false) 0 (ret_stamp d topic clk) in
+  let r := RMsg (Publish topic "" 0 false false) 0 (ret_stamp d topic clk) in
   (with_ret d (aset topic r (d_ret d)), Some (BEvent [] [] [r])).
 (* topics/node.go match: like MQTT matching, except that a '#' level stands for "everything
    below" wherever it occurs in the filter (MQTT only allows it last; for such filters the two agree) *)
